@@ -57,4 +57,8 @@ def sfNOps : NOps Nat := ⟨SF.ratio, fun q k => SF.ratio q (sfOfNat k)⟩
 def omenProbFile {Q : Type} (O : NOps Q) (ge : Q → Q → Bool) (ks : List (Nat × Nat)) (c : LCtr) (n : Nat) : List (Nat × Q) :=
   (omenProbs O ks c n).mergeSort fun a b => ge a.2 b.2
 
+/-- what is written to `omen_keyspace.txt`: `reversed(omen_keyspace.most_common())` -/
+def keyspaceFile (ks : List (Nat × Nat)) : List (Nat × Nat) :=
+  (ks.mergeSort fun a b => decide (a.2 ≥ b.2)).reverse
+
 end Omen
